@@ -283,6 +283,7 @@ func SessionC04(t *tape.Tape) *core.RunResult {
 	// how eager this GUI is to send stop: an impatient one stops a search within a few steps, a patient one
 	// lets simulated time pass first (so that timers of this and of EARLIER searches get their chance)
 	patience := t.Choose(3)
+	neverStop := t.Chance(1, 3)
 	wClock := []int{3, 6, 12}[patience]
 	gui := func() string {
 		// while a go is unanswered the polite GUI only sends isready / stop
@@ -290,7 +291,10 @@ func SessionC04(t *tape.Tape) *core.RunResult {
 			wStop := map[bool]int{true: 9, false: 3}[ob.needsStop]
 			wStop = []int{wStop, wStop / 3, wStop / 9}[patience]
 			if s.steps-ob.goStep > 150 {
-				wStop = 9 // even a patient GUI stops eventually
+				wStop = 9 // even a patient GUI stops eventually ...
+			}
+			if !ob.needsStop && neverStop {
+				wStop = 0 // ... unless it trusts that a search with a limit ends by itself (the settle phase decides)
 			}
 			switch t.Weighted([]int{18, 6, wStop}) {
 			case 1:
@@ -374,6 +378,9 @@ func SessionC04(t *tape.Tape) *core.RunResult {
 		}
 		if ob := g.open(); ob != nil && ob.stopStep > 0 && s.steps-ob.stopStep > 300 {
 			break // told to stop long ago and still no answer: let the settle phase decide
+		}
+		if ob := g.open(); ob != nil && !ob.needsStop && neverStop && ob.stopStep == 0 && s.steps-ob.goStep > 400 {
+			break // a search with a limit that has not ended by itself in all that time: settle decides
 		}
 		s.stepRandom(gui, 6, wClock)
 		g.judge()
